@@ -18,7 +18,7 @@ pub fn prop() -> Prop {
 fn spec() -> Spec {
     Spec {
         kinds: vec![Kind { name: "ik_sound", quick: 800_000, thorough: 20_000_000, serial: false }, Kind { name: "shared_history", quick: 40_000, thorough: 1_000_000, serial: false }],
-        rule: "each case = generated robot (all classes incl. degenerate, 64 sign patterns, offsets, dof 5/6) x pose (reachable / random SE(3) / reach boundary / wrist centre on axis 1 / wrist singular / hostile NaN-inf-nonunit) x previous (generating, shifted by turns, uniform, far outside, sentinel, non-finite) ; all four inverse entry points are called and EVERY returned vector is pushed through the reference chain; non-trivial = a call returned >= 1 vector; distinct = hash(robot, pose, previous, entry point) Workload additions (rounds 4-6 of seeded changes): solvers built through new or new_with_constraints with limits that exclude nothing; dof-5 robots with a blocked or an unblocked sixth sign; previous classes generating+1e-9..1e-4 noise and generating-with-exact-zeros; kind shared_history = 2-4 robots sharing link lengths (other signs / offsets / c4) asked bit-identical poses and previous vectors in interleaved order on one thread.",
+        rule: "each case = generated robot (all classes incl. degenerate, 64 sign patterns, offsets, dof 5/6) x pose (reachable / random SE(3) / reach boundary / wrist centre on axis 1 / wrist singular / hostile NaN-inf-nonunit) x previous (generating, shifted by turns, uniform, far outside, sentinel, non-finite) ; all four inverse entry points are called and EVERY returned vector is pushed through the reference chain; non-trivial = a call returned >= 1 vector; distinct = hash(robot, pose, previous, entry point) Workload additions (rounds 4-6 of seeded changes): solvers built through new or new_with_constraints with limits that exclude nothing; dof-5 robots with a blocked or an unblocked sixth sign; previous classes generating+1e-9..1e-4 noise and generating-with-exact-zeros; kind shared_history = 2-4 robots sharing link lengths (other signs / offsets / c4) asked bit-identical poses and previous vectors in interleaved order on one thread. Rounds 7-9: non-finite J6 handed to inverse_5dof; joints at micro-radian values; robots at x25..x100 / x0.01..x0.1 scale; previous = a posture with the same TCP and another orientation; a fifth of the cases additionally through Tool / Base / Frame stacks (incl. yaw-only and far-away bases).",
         assumptions: vec![
             "stated accuracy 1e-6 m / 1e-6 rad plus slack 1e-9 + 1e-12*reach for the difference between the library FK and the reference chain",
             "for hostile poses (non-finite, non-unit quaternion) only no-panic and finiteness are required: there is no SE(3) element to reproduce",
@@ -67,6 +67,48 @@ fn run_case(kind: &str, idx: u64, rng: &mut Rng, mon: &mut Mon, _tier: Tier) {
         mon.count("b_nonzero");
     }
     check_calls(mon, &robot, &kin, &gp, &prev, prev_class, j6, &ENTRIES);
+    // a fifth of the cases additionally asks the same solver through a stack of Tool / Base / Frame wrappers (6-DOF entry
+    // points of 6-DOF robots: every answer must land on the requested pose through the reference composition)
+    if gp.proper && rp.dof == 6 && rng.bool(0.2) {
+        use crate::props::stack::*;
+        let layers = gen_stack(rng, 1 + rng.clone().usize(2), false, &["Tool", "Base", "Frame"]);
+        let _ = rng.next_u64();
+        let stacked = build(std::sync::Arc::new(kin), &layers);
+        // the request in stack coordinates: the same flange pose seen through the stack
+        let mut request = iso_to_fr(&gp.iso);
+        for l in &layers {
+            match l {
+                Layer::Tool(x) | Layer::Frame(x) => request = request.mul(x),
+                Layer::Base(x) => request = x.mul(&request),
+                _ => {}
+            }
+        }
+        let lever: f64 = layers.iter().map(|l| match l { Layer::Tool(f) | Layer::Frame(f) => norm(f.p), _ => 0.0 }).sum();
+        let far: f64 = layers.iter().map(|l| match l { Layer::Base(f) => norm(f.p), _ => 0.0 }).sum();
+        for e in [Entry::Inverse, Entry::Continuing] {
+            mon.count("calls_through_a_wrapper_stack");
+            let sols = match call(stacked.as_ref(), e, &fr_to_iso(&request), &prev, 0.0) {
+                Ok(s) => s,
+                Err(msg) => {
+                    mon.violation(&format!("panic:stack:{}", e.name()), "inverse entry point of a wrapper stack panicked", json!({"robot": robot_json(&robot), "stack": stack_json(&layers), "panic": msg}));
+                    continue;
+                }
+            };
+            for s in &sols {
+                if !s.iter().all(|x| x.is_finite()) {
+                    mon.violation(&format!("non-finite:stack:{}", e.name()), "a wrapper stack returned a non-finite joint vector", json!({"robot": robot_json(&robot), "stack": stack_json(&layers), "solution": jf(s)}));
+                    continue;
+                }
+                let got = ref_forward(&rp, &layers, s);
+                let (dp, dr) = (pos_dist(&got, &request), rot_angle(&got.r, &request.r));
+                if !(dp <= POS_TOL * (1.0 + lever) + 1e-9 + 1e-12 * (rp.reach() + far + lever) && dr <= ROT_TOL + 1e-9) {
+                    mon.violation(&format!("pose:stack:{}", e.name()), "an answer of a wrapper stack does not reproduce the requested pose through the reference composition", json!({"robot": robot_json(&robot), "stack": stack_json(&layers), "entry": e.name(), "prev": jf(&prev), "solution": jf(s), "dp": dp, "dr": dr}));
+                } else {
+                    mon.held();
+                }
+            }
+        }
+    }
 }
 
 /// History workload: several robots that share their link lengths (and so a good part of any key a
